@@ -35,9 +35,9 @@ ASSUMPTIONS = ["parent and 1-3 partners of an added atom come from the harness' 
                "exact-template synthetic inputs therefore get 0.02/0.03 A",
                "water hydrogens: bond length within 0.06 A of the template value (the optimiser builds O-H = 1.0 A)"]
 MIN = {"quick": {"added_atoms_checked": 10000, "fit_events": 9000, "create_atom_events": 12000,
-                 "rebuilt_heavy_atoms_checked": 150, "torsion_calls_invivo": 200},
+                 "rebuilt_heavy_atoms_checked": 150, "torsion_calls_invivo": 200, "pka_route_runs": 15},
        "thorough": {"added_atoms_checked": 400000, "fit_events": 300000, "create_atom_events": 400000,
-                    "rebuilt_heavy_atoms_checked": 5000, "torsion_calls_invivo": 8000}}
+                    "rebuilt_heavy_atoms_checked": 5000, "torsion_calls_invivo": 8000, "pka_route_runs": 800}}
 OPTIMISABLE = {"SER", "THR", "TYR", "CYS", "HIS", "ASN", "GLN", "ASP", "GLU", "LYS", "ARG"}
 
 
